@@ -45,7 +45,8 @@ def rand_program(rng, nops):
     for _ in range(rng.randint(2, 3)):
         ops.append(['new', rng.choice(coins), rand_ma(rng, pols, names, qty=qty)]); nv += 1
     kinds = ['add', 'add', 'sub', 'sub', 'union', 'addint', 'iadd', 'iadd', 'maiadd', 'setitem', 'setitem', 'filter',
-             'normalize', 'alias', 'share', 'new', 'eq', 'eq', 'le', 'le', 'lt', 'count']
+             'normalize', 'alias', 'share', 'new', 'eq', 'eq', 'le', 'le', 'lt', 'count', 'ge', 'ge', 'gt', 'male', 'mage',
+             'ale', 'age', 'aiadd', 'aiadd']
     for _ in range(nops):
         k = rng.choice(kinds)
         a, b = rng.randrange(nv), rng.randrange(nv)
@@ -55,8 +56,10 @@ def rand_program(rng, nops):
             ops.append([k, a, b]); nv += 1
         elif k == 'addint':
             ops.append([k, a, rng.choice([0, 1, -1, 2**64])]); nv += 1
-        elif k in ('iadd', 'maiadd', 'eq', 'le', 'lt'):
+        elif k in ('iadd', 'maiadd', 'eq', 'le', 'lt', 'ge', 'gt', 'male', 'mage'):
             ops.append([k, a, b])
+        elif k in ('ale', 'age', 'aiadd'):
+            ops.append([k, a, rng.choice(pols).hex(), b])
         elif k == 'setitem':
             ops.append([k, a, rng.choice(pols).hex(), rng.choice(names).hex(), rng.choice(qty)])
         elif k == 'filter':
@@ -69,6 +72,52 @@ def rand_program(rng, nops):
             ops.append([k, a]); nv += 1
         elif k == 'share':
             ops.append([k, a, rng.choice(coins)]); nv += 1
+    return ops
+
+
+def cancel_program(rng):
+    """operands built to meet exactly: quantities that cancel to zero name by name (a burn applied to a holding), operands
+    that are sub-bundles / incomparable / equal, so that in-place and pure forms, and every comparison, see zero crossings"""
+    pols = policies(rng, rng.randint(1, 3))
+    names = rng.sample(NAMES, rng.randint(2, 4))
+    base = {}
+    for p in pols:
+        for n in rng.sample(names, rng.randint(1, len(names))):
+            base[(p, n)] = rng.choice([1, 2, 5, 5, 24, 2**64, -3])
+    other = {}
+    for k, v in base.items():
+        m = rng.random()
+        if m < 0.45:
+            other[k] = -v                              # cancels exactly
+        elif m < 0.6:
+            other[k] = v                               # equal
+        elif m < 0.75:
+            other[k] = v + rng.choice([1, -1])         # just above / below: incomparable mixes
+    for _ in range(rng.randint(0, 2)):
+        other.setdefault((rng.choice(pols), rng.choice(NAMES)), rng.choice([1, -1, 7]))
+
+    def lit(d):
+        order = list(d); rng.shuffle(order)
+        out = {}
+        for (p, n) in order:
+            out.setdefault(p, []).append([n.hex(), d[(p, n)]])
+        return [[p.hex(), v] for p, v in out.items()]
+    ops = [['new', rng.choice([0, 5, 1000000]), lit(base)], ['new', rng.choice([0, 5, -5]), lit(other)]]
+    nv = 2
+    for _ in range(rng.randint(3, 9)):
+        k = rng.choice(['aiadd', 'aiadd', 'aiadd', 'maiadd', 'iadd', 'add', 'sub', 'eq', 'le', 'ge', 'gt', 'lt', 'male', 'mage',
+                        'ale', 'age', 'alias', 'share'])
+        a, b = rng.randrange(nv), rng.randrange(nv)
+        if k in ('aiadd', 'ale', 'age'):
+            ops.append([k, a, rng.choice(pols).hex(), b])
+        elif k in ('add', 'sub'):
+            ops.append([k, a, b]); nv += 1
+        elif k == 'alias':
+            ops.append([k, a]); nv += 1
+        elif k == 'share':
+            ops.append([k, a, 7]); nv += 1
+        else:
+            ops.append([k, a, b])
     return ops
 
 
@@ -164,6 +213,10 @@ def r_op(op):
         return f'{name} {cnat(op[1])} {cnat(op[2])}'
     if k == 'maiadd':
         return f'HMaIAdd {cnat(op[1])} {cnat(op[2])}'
+    if k in ('ge', 'gt', 'male', 'mage'):
+        return f'{dict(ge="HGe", gt="HGt", male="HMaLe", mage="HMaGe")[k]} {cnat(op[1])} {cnat(op[2])}'
+    if k in ('ale', 'age', 'aiadd'):
+        return f'{dict(ale="HALe", age="HAGe", aiadd="HAIAdd")[k]} {cnat(op[1])} {chx(bytes.fromhex(op[2]))} {cnat(op[3])}'
     if k == 'addint':
         return f'HAddInt {cnat(op[1])} {cz(op[2])}'
     if k == 'setitem':
